@@ -220,6 +220,8 @@ def bookkeeping(env, res):
         a.cmd("MULTI")
         a.cmd("SET", "marker", "1")
         ex = a.cmd("EXEC")
+        a.cmd("SELECT", "0")
+        b.cmd("SELECT", "0")
         res.evaluations += 1
         res.cell("bookkeeping", name)
         executed = isinstance(ex, list)
@@ -235,6 +237,60 @@ def bookkeeping(env, res):
     case("two-watch-calls", [("a", ["WATCH", "o1"]), ("a", ["WATCH", W]), ("b", ["SET", W, "x"])], False)
     case("change-before-watch", [("b", ["SET", W, "x"]), ("a", ["WATCH", W])], True)
     case("rewatch-after-change", [("a", ["WATCH", W]), ("b", ["SET", W, "x"]), ("a", ["UNWATCH"]), ("a", ["WATCH", W])], True)
+    # a key watched twice keeps its first baseline
+    case("watch-twice-change-between", [("a", ["WATCH", W]), ("b", ["SET", W, "x"]), ("a", ["WATCH", W])], False)
+    case("watch-twice-change-after", [("a", ["WATCH", W]), ("a", ["WATCH", W]), ("b", ["SET", W, "x"])], False)
+    case("watch-twice-no-change", [("a", ["WATCH", W]), ("a", ["WATCH", W]), ("b", ["SET", "o3", "x"])], True)
+    case("watch-twice-in-one-call", [("a", ["WATCH", W, W]), ("b", ["SET", W, "x"])], False)
+    # the watch belongs to the database selected at WATCH time
+    case("select-after-watch", [("a", ["WATCH", W]), ("a", ["SELECT", "1"]), ("b", ["SET", W, "x"])], False)
+    case("select-after-watch-del", [("a", ["WATCH", W]), ("a", ["SELECT", "5"]), ("b", ["DEL", W])], False)
+    case("select-after-watch-change-in-new-db", [("a", ["WATCH", W]), ("a", ["SELECT", "1"]), ("b", ["SELECT", "1"]),
+                                                  ("b", ["SET", W, "x"])], True)
+    case("select-after-watch-no-change", [("a", ["WATCH", W]), ("a", ["SELECT", "1"])], True)
+    case("select-away-and-back", [("a", ["WATCH", W]), ("a", ["SELECT", "1"]), ("b", ["SET", W, "x"]), ("a", ["SELECT", "0"])], False)
+    case("same-name-two-dbs-second-changed", [("a", ["WATCH", W]), ("a", ["SELECT", "1"]), ("a", ["WATCH", W]),
+                                               ("b", ["SELECT", "1"]), ("b", ["SET", W, "x"])], False)
+    case("same-name-two-dbs-first-changed", [("a", ["WATCH", W]), ("a", ["SELECT", "1"]), ("a", ["WATCH", W]),
+                                              ("b", ["SET", W, "x"])], False)
+    case("watch-in-db1-change-in-db0", [("a", ["SELECT", "1"]), ("a", ["WATCH", W]), ("b", ["SET", W, "x"])], True)
+    case("watch-in-db1-change-in-db1", [("a", ["SELECT", "1"]), ("a", ["WATCH", W]), ("b", ["SELECT", "1"]), ("b", ["SET", W, "x"])], False)
+    # another watcher of the same key going away must not take this one's watch along
+    for how, steps in (("unwatches", [["UNWATCH"]]), ("execs", [["MULTI"], ["EXEC"]]), ("discards", [["MULTI"], ["DISCARD"]]),
+                       ("watches-again", [["WATCH", W]])):
+        env.fresh()
+        b.cmd("SET", W, "v1")
+        c = env.srv.client()
+        a.cmd("WATCH", W)
+        c.cmd("WATCH", W)
+        for st in steps:
+            c.cmd(*st)
+        b.cmd("SET", W, "x")
+        a.cmd("MULTI")
+        a.cmd("SET", "marker", "1")
+        ex = a.cmd("EXEC")
+        c.close()
+        res.evaluations += 1
+        res.cell("bookkeeping", "other-watcher-" + how)
+        if ex is not NULL_ARRAY:
+            res.violation("no-abort/other-watcher-" + how, "A WATCH k; C WATCH k; C %s; B SET k; A MULTI/SET/EXEC -> %s, expected nil" % (
+                resp.show(steps), resp.show(ex)))
+    for how in ("disconnects",):
+        env.fresh()
+        b.cmd("SET", W, "v1")
+        c = env.srv.client()
+        a.cmd("WATCH", W)
+        c.cmd("WATCH", W)
+        c.close()
+        server.wait_loops(b, 3)
+        b.cmd("SET", W, "x")
+        a.cmd("MULTI")
+        a.cmd("SET", "marker", "1")
+        ex = a.cmd("EXEC")
+        res.evaluations += 1
+        res.cell("bookkeeping", "other-watcher-" + how)
+        if ex is not NULL_ARRAY:
+            res.violation("no-abort/other-watcher-" + how, "A WATCH k; C WATCH k; C disconnects; B SET k; A EXEC -> %s, expected nil" % resp.show(ex))
     # WATCH inside MULTI is an error and does not watch
     env.fresh()
     a.cmd("MULTI")
